@@ -330,7 +330,15 @@ function makeWorld(spec) {
   sandbox.$v = (id) => mk(spec.vals[id])
   sandbox.$dc = vue.defineComponent
   sandbox.$mark = (id) => log({ ev: 'mark', id })
-  for (const p of spec.pragmas || []) if (!(p in sandbox)) sandbox[p] = makeFactory(p)
+  // factory names may be dotted (`@jsx a.b.c`): the longest names first, so that `a.b` becomes a function carrying `c`
+  for (const p of [...(spec.pragmas || [])].sort((x, y) => x.split('.').length - y.split('.').length)) {
+    const parts = p.split('.')
+    if (parts.length === 1) { if (!(p in sandbox)) sandbox[p] = makeFactory(p); continue }
+    let o = sandbox[parts[0]]
+    if (o === undefined) o = sandbox[parts[0]] = {}
+    for (let i = 1; i < parts.length - 1; i++) { if (o[parts[i]] === undefined) o[parts[i]] = {}; o = o[parts[i]] }
+    if (o[parts[parts.length - 1]] === undefined) o[parts[parts.length - 1]] = makeFactory(p)
+  }
   sandbox.console = { log() {}, warn() {}, error() {} }
   return { events, log, vue, sandbox, canon, firePending, setReader: (f) => { readTargets = f } }
 }
